@@ -21,7 +21,8 @@
    The record cfg selects the code as it is (cfg_asis) or the repaired code
    (fixes/C30-roundtrip-verbatim.diff): fix_keep_ws = walkDecl pushes whitespace at the end of a
    scope back instead of discarding it, fix_cv = walkScope maps a token to its open token,
-   fix_eof = round-trip mode appends the trailing trivia verbatim and adds no newline. *)
+   fix_eof = PrintFile in round-trip mode appends the trailing trivia verbatim and adds no newline,
+   fix_decl_tail = Print appends the trailing trivia of the declaration verbatim. *)
 From Coq Require Import List NArith Bool Arith.
 Import ListNotations.
 Open Scope N_scope.
@@ -152,9 +153,12 @@ Definition get_det (id : N) (ix : index) : det :=
   match alookup id (i_det ix) with Some d => d | None => mkDet [] [] false [] end.
 
 (* ---- configuration: the code as it is / repaired ---- *)
-Record cfg := mkCfg { fix_keep_ws : bool; fix_cv : bool; fix_eof : bool }.
-Definition cfg_asis : cfg := mkCfg false false false.
-Definition cfg_fixed : cfg := mkCfg true true true.
+Record cfg := mkCfg { fix_keep_ws : bool; fix_cv : bool; fix_eof : bool; fix_decl_tail : bool }.
+Definition cfg_asis : cfg := mkCfg false false false false.
+(* fixes/C30-final-newline.diff alone *)
+Definition cfg_eof_only : cfg := mkCfg false false true false.
+(* fixes/C30-roundtrip-verbatim.diff *)
+Definition cfg_fixed : cfg := mkCfg true true true true.
 
 (* ---- walkDecl: the loop that collects the trailing trivia of a declaration ---- *)
 Inductive tstop :=
@@ -442,7 +446,7 @@ Fixpoint cut_decls (l : list tok) (starts : list N) (cur : list tok) (acc : list
   end.
 
 Definition finish_decl (cf : cfg) (out tail : list N) : list N :=
-  if fix_eof cf then out ++ tail
+  if fix_decl_tail cf then out ++ tail
   else if all_eq 32 tail then out else out ++ tail.
 
 Definition print_decl (cf : cfg) (ix : index) (slot : list tok) (decl : list tok) : list N :=
